@@ -114,6 +114,11 @@ def check(prog, rep):
     rep.not_decided += ["PROPKA's pKa values", "structures whose pKa table has keys the code cannot match",
                         "user-supplied force fields (no table to compare with)"]
 
+    from . import shared as _sh
+    # the decision table below is evaluated one residue at a time; that is the whole truth only if the loop carries nothing from one residue
+    # to the next (the pKa table loses the entry an iteration has used: keys are per residue, R4)
+    _sh.rule_iterations_independent(rep, "R7", "the titration state of a residue does not depend on the residues visited before it", fi, loop,
+                                    allowed=("pkadic",), what="residue")
     r1 = rep.rule("R1", "decision table = force-field support matrix (no drop, exact titration)", floor=300)
     r2 = rep.rule("R2", "each patch sits on the chemically right side of the pKa; sides complementary", floor=7)
     r3 = rep.rule("R3", "an unsupported titration keeps the default state AND warns", floor=1)
@@ -278,6 +283,7 @@ def check_keys(prog, model, loop, r4):
     PKA = Obj({"__class__": "float-model", "__id__": "pKa"})
     PH = Obj({"__class__": "float-model", "__id__": "pH"})
     handed = {"value_ok": True, "ph_ok": True, "ff_ok": True, "n": 0}
+    produced_for = {}
     for R in AMINO:
         for num in resnums:
             for ch in chains:
@@ -311,6 +317,8 @@ def check_keys(prog, model, loop, r4):
                     for k_, v_ in got[0][2].items():
                         handed["value_ok"] &= v_ is PKA
                         produced.add((k_, "side-chain" if label[:2] not in ("N+", "C-") else label[:2]))
+                        if label[:2] not in ("N+", "C-"):
+                            produced_for.setdefault((R, num, ch), set()).add(k_)
     r4.info["producer_rows_evaluated"] = handed["n"]
     r4.add("producer|values-unmodified", handed["value_ok"] and handed["ph_ok"] and handed["ff_ok"],
            f"on {handed['n']} model rows the table values are the rows' pKa objects themselves, the pH argument is args.ph and the force-field "
@@ -344,6 +352,20 @@ def check_keys(prog, model, loop, r4):
                     if k in produced_keys:
                         hits += 1
         tkey = "keytemplate|" + ("N+" if U(st.value).find("N+") >= 0 else "C-" if U(st.value).find("C-") >= 0 else "sidechain")
+        if tkey.endswith("sidechain"):
+            # the very residue a row describes must find it: for every model residue (numbers of one to four digits and negative, with and
+            # without a chain identifier) the key the consumer builds is the key the producer filed that residue's side-chain row under
+            lost = []
+            for R in AMINO:
+                for num in resnums:
+                    for ch in chains:
+                        k = Interp({"resname": R, "resnum": num, "chain_id": ch}).ev(st.value).strip()
+                        if k not in {x.strip() if isinstance(x, str) else x for x in produced_for.get((R, num, ch), ())}:
+                            lost.append(f"{R} {num} {ch!r}: looked up as {k!r}, filed under {sorted(produced_for.get((R, num, ch), ()))}")
+            r4.add("keytemplate|sidechain|every-residue", not lost,
+                   f"each of the {len(AMINO) * len(resnums) * len(chains)} model residues finds the row PROPKA made for it" if not lost else
+                   f"{len(lost)} model residue(s) never find their own row, e.g. {lost[:3]}",
+                   f"pdb2pqr/biomolecule.py:{st.lineno} (Biomolecule.apply_pka_values)")
         r4.add(tkey, hits > 0,
                f"consumer key template {U(st.value)} matches {hits} producible key(s); the producer keeps only rows "
                "whose group_label starts with the residue name and keys them '<res_name> <res_num> <chain>'",
